@@ -219,7 +219,7 @@ PROPS = {
         "modules": ["PgBifrost.Props.C18"],
         "components": ["client", "clientload", "connmgr"],
         "required_theorems": ["PgBifrost.Props.C18.keepalive_reply_before_next_read",
-                              "PgBifrost.Props.C18.status_gap_bounded", "PgBifrost.Props.C18.keepalive_as_in_source"],
+                              "PgBifrost.Props.C18.status_gap_bounded", "PgBifrost.Props.C18.keepalive_as_in_source", "PgBifrost.Props.C18.conn_wrapper_as_in_source"],
         "partial": "durations are proved in a logical-time timer sub-model (firing visible when due, handling takes no "
                    "time, ReceiveMessage returns within T); real timer/scheduler latency is measured by the harness "
                    "(max gap in the distribution), not proved. The session's very first keepalive is not answered even "
